@@ -33,6 +33,7 @@ class Model(object):
         self.blocks = []     # [id, name, rock, volume]
         self.cons = []       # [idA, idB]
         self.rocks = []      # names
+        self.redefined = set()   # rock names re-registered with add_rocktype() after blocks were given the old object
         self.next = 0
 
     def names(self): return [b[1] for b in self.blocks]
@@ -75,7 +76,7 @@ def geo_state(rc):
 
 
 # ---------------------------------------------------------------------------------------------- invariant
-def invariant(R, g, op):
+def invariant(R, g, op, identity_exempt=()):
     tag = op
     names = [b.name for b in g.blocklist]
     ok = R.check(len(set(names)) == len(names), tag + ':block-names-not-unique', repr(names[:8]))
@@ -105,7 +106,12 @@ def invariant(R, g, op):
     R.check(len(set(rnames)) == len(rnames) and set(g.rocktype.keys()) == set(rnames), tag + ':rocktype-lookup-vs-list',
             'keys %r list %r' % (sorted(g.rocktype.keys()), rnames))
     for b in g.blocklist:
-        if b.rocktype is None or g.rocktype.get(b.rocktype.name) is not b.rocktype:
+        if b.rocktype is None or b.rocktype.name not in g.rocktype:
+            R.fail(tag + ':block-rocktype-name-not-registered', 'block %r has rock type %r; registered names %r' % (
+                b.name, getattr(b.rocktype, 'name', None), sorted(g.rocktype))); break
+        # add_rocktype() documents that re-registering a name replaces the registered object: blocks holding the
+        # replaced object are exempt from the identity test (by name they are still registered)
+        if b.rocktype.name not in identity_exempt and g.rocktype.get(b.rocktype.name) is not b.rocktype:
             R.fail(tag + ':block-rocktype-not-registered', 'block %r has rock type %r, which is not the object registered '
                    'under that name (registered names %r)' % (b.name, getattr(b.rocktype, 'name', None), sorted(g.rocktype))); break
 
@@ -164,7 +170,8 @@ def apply_op(R, g, m, op):
         else:
             if nb < 2: return g, None
             a = m.blocks[op['i'] % nb]; b = m.blocks[op['j'] % nb]
-        if a is b or [a[0], b[0]] in m.cons or [b[0], a[0]] in m.cons: return g, None
+        if a is b or [a[0], b[0]] in m.cons: return g, None        # the same ordered pair is a replacement, not an addition
+        if [b[0], a[0]] in m.cons: R.label('connection:both-orientations')
         g.add_connection(t2grids.t2connection([g.block[a[1]], g.block[b[1]]], 2, [1.5, 2.5], 4.0, 0.5))
         m.cons.append([a[0], b[0]])
     elif k == 'delete_connection':
@@ -181,6 +188,12 @@ def apply_op(R, g, m, op):
         name = op.get('name') or 'q%03d' % (op.get('i', 0) % 7)
         if name in m.rocks: return g, None
         g.add_rocktype(t2grids.rocktype(name)); m.rocks.append(name)
+    elif k == 'redefine_rocktype':
+        if not m.rocks: return g, None
+        name = op['name'] if op.get('name') in m.rocks else m.rocks[op.get('i', 0) % len(m.rocks)]
+        if op.get('name') is not None and op['name'] not in m.rocks: return g, None
+        g.add_rocktype(t2grids.rocktype(name, porosity=0.25))
+        if any(b[2] == name for b in m.blocks): m.redefined.add(name)
     elif k == 'delete_rocktype':
         cand = [r for r in m.rocks if all(b[2] != r for b in m.blocks)]
         if op.get('name') is not None: cand = [r for r in cand if r == op['name']]
@@ -192,6 +205,7 @@ def apply_op(R, g, m, op):
         old = op['old'] if op.get('old') is not None else m.rocks[op['i'] % len(m.rocks)]
         new = op.get('new') or 'n%03d' % (op.get('j', 0) % 5)
         if old not in m.rocks or new in m.rocks: return g, None
+        if old in m.redefined: return g, None       # blocks still hold the replaced object of that name: renaming is the caller's problem
         g.rename_rocktype(old, new)
         m.rocks[m.rocks.index(old)] = new
         for b in m.blocks:
@@ -242,7 +256,7 @@ def apply_op(R, g, m, op):
         newcons = []
         for i in corder:
             a, b = m.cons[i]
-            if i in fl: a, b = b, a
+            if i in fl and [b, a] not in m.cons: a, b = b, a
             cn.append((m.name_of(a), m.name_of(b))); newcons.append([a, b])
         g.reorder(bn, cn if nc else None)
         m.blocks = [m.blocks[i] for i in order]
@@ -322,7 +336,7 @@ def run_history(R, g, m, ops, judge_from=0):
         R.label('op:' + kind)
         if n >= judge_from:
             before = len(R.findings)
-            invariant(R, g, kind)
+            invariant(R, g, kind, m.redefined)
             compare_model(R, g, m, kind)
             if len(R.findings) > before:
                 return g, kinds, False       # later operations would only echo this defect
@@ -354,6 +368,7 @@ def alphabet(full):
         A.append({'op': 'delete_connection', 'a': a, 'b': b})
     for r in ROCKS:
         A.append({'op': 'add_rocktype', 'name': r}); A.append({'op': 'delete_rocktype', 'name': r})
+        A.append({'op': 'redefine_rocktype', 'name': r})
     for a, b in itertools.permutations(ROCKS, 2): A.append({'op': 'rename_rocktype', 'old': a, 'new': b})
     maps = partial_injections(U)
     if not full:
@@ -395,6 +410,7 @@ def op_strategy():
         st.builds(lambda a: {'op': 'delete_connection', 'i': a}, i),
         st.builds(lambda a: {'op': 'add_rocktype', 'i': a}, i),
         st.builds(lambda a: {'op': 'delete_rocktype', 'i': a}, i),
+        st.builds(lambda a: {'op': 'redefine_rocktype', 'i': a}, i),
         st.builds(lambda a, b: {'op': 'rename_rocktype', 'i': a, 'j': b}, i, i),
         st.builds(lambda s, k: {'op': 'rename_blocks', 'src': s, 'kind': k}, small, st.sampled_from(['fresh', 'cycle', 'swap', 'shift'])),
         st.builds(lambda s, k: {'op': 'rename_blocks', 'src': s, 'kind': k}, small, st.sampled_from(['cycle', 'swap', 'shift'])),
